@@ -176,6 +176,7 @@ def drive(ws, fs, driver, cf=False, max_calls=400):
     calls = 0
     while calls < max_calls:
         calls += 1
+        before = ws.connected
         try:
             if driver == "frame":
                 f = ws.recv_frame()
@@ -191,7 +192,7 @@ def drive(ws, fs, driver, cf=False, max_calls=400):
                 val = ("R", type(r).__name__, r if isinstance(r, str) else _b(r))
             events.append(("ret", val, fs.consumed, len(fs.writes())))
         except websocket.WebSocketTimeoutException:
-            events.append(("timeout", fs.consumed, ws.connected, ws.sock is fs and not fs.closed))
+            events.append(("timeout", fs.consumed, ws.connected == before, ws.sock is fs and not fs.closed))
         except Budget as e:
             events.append(("spin", str(e)))
             break
